@@ -86,6 +86,8 @@ def explicit_values(seed):
           # a base text that itself contains a complete SGR sequence (assign_str takes its text verbatim): a copy made by
           # re-parsing the text is not a copy
           [['plain', 'abcd'], ['apply', R['R'], 0, 3, True], ['assign', 'a\x1b[1mb']],
+          # an invalid setting (simplify drops it - from this value only)
+          [['plain', 'abc'], ['apply', R['x'], 0, 2, True], ['apply', R['R'], 1, 3, True]],
           # three settings on one character (outer two ending together) and the conflict pattern X, Y, X
           [['plain', 'abcd'], ['apply', R['R'], 0, 2, True], ['apply', R['W'], 0, 3, True], ['apply', R['U'], 0, 2, True]],
           [['plain', 'abcd'], ['apply', R['R'], 0, 4, True], ['apply', R['B'], 1, 4, True], ['apply', R['R'], 2, 3, True]]]
